@@ -116,6 +116,8 @@ def emit() -> str:
     fns: Dict[str, ast.FunctionDef] = {
         "topological_sort": find_function(sc, "topological_sort"),
         "graph_has_cycle": find_function(sc, "graph_has_cycle"),
+        "rf_init": find_method(class_def(rw, "RewardFunction"), "__init__"),
+        "register_component": find_method(class_def(rw, "RewardFunction"), "register_component"),
         "update": find_method(class_def(rw, "RewardFunction"), "update"),
         "update_agents": find_method(class_def(gm, "PrimaiteGame"), "update_agents"),
         "setup_reward_sharing": find_method(class_def(gm, "PrimaiteGame"), "setup_reward_sharing"),
@@ -159,6 +161,17 @@ def emit() -> str:
         if d is None or not isinstance(d.value, ast.Constant) or not isinstance(d.value.value, bool):
             raise ValueError(f"{cname}.ConfigSchema.sticky default not a bool literal")
         sticky.append((cname, d.value.value))
+    # weight defaults: `_SingleComponentConfig.weight: float = <literal>` and `register_component(..., weight=<literal>)`
+    scc = class_def(rw, "_SingleComponentConfig")
+    wd = next((s for s in scc.body if isinstance(s, ast.AnnAssign) and ast.unparse(s.target) == "weight"), None)
+    if wd is None or ast.unparse(wd.annotation) != "float" or wd.value is None:
+        raise ValueError("_SingleComponentConfig.weight is not `weight: float = <literal>`: "
+                         + (ast.unparse(wd) if wd is not None else "missing"))
+    default_weight = lean_rat(wd.value)
+    rc = fns["register_component"]
+    if [a.arg for a in rc.args.args] != ["self", "component", "weight"] or len(rc.args.defaults) != 1:
+        raise ValueError("register_component signature changed: " + ast.unparse(rc.args))
+    register_default = lean_rat(rc.args.defaults[0])
     # component discriminators, in definition order
     types = []
     for n in rw.body:
@@ -191,6 +204,12 @@ def componentTypes : List String := [{", ".join(lean_str(t) for t in types)}]
 def actionPenaltyDoNothing : String := {lean_str(dn_lit)}
 /-- `RewardFunction.update` is `total = 0.0; for (comp, weight): total += weight * comp.calculate(...); current_reward = total` -/
 def updateIsWeightedLeftFold : Bool := true
+/-- `_SingleComponentConfig.weight: float = …` (a component whose configuration omits the key) -/
+def defaultWeight : Rat := {default_weight}
+/-- `register_component(self, component, weight=…)` -/
+def registerDefaultWeight : Rat := {register_default}
+/-- `RewardFunction.__init__`: `self.register_component(component=rew_instance, weight=rew_config.weight)` -/
+def weightPassedUnchanged : Bool := true
 /-- body of `update_agents`' loop, in order -/
 def updateAgentsCalls : List String := ["update_reward", "save_reward_to_history", "update_observation", "total+=current"]
 def updateAgentsIteratesOrder : Bool := true
